@@ -1,9 +1,264 @@
-import W2c2Verif.Model.WasiPosix
-namespace W2c2Verif.Props.C13
-open W2c2Verif W2c2Verif.Model.Wasi
+/-
+  Props.C13 — WASI descriptors: unique while open, EBADF after close, host memory stays safe.
 
-/-- placeholder while the check is being brought up -/
-theorem std_streams_init {σ} (m : Mem) (h : σ) :
-    (initTable m h).fds = [⟨0, none, none⟩, ⟨1, none, none⟩, ⟨2, none, none⟩] := rfl
+  The model (`Model.Wasi`) covers EVERY descriptor-taking import of `wasi/wasi.c`, in both ABI
+  name spaces (`wasi_snapshot_preview1`, `wasi_unstable`):
+    fd_write fd_pwrite fd_read fd_pread fd_seek fd_tell fd_readdir (up to the listing loop)
+    fd_close fd_fdstat_get fd_datasync fd_sync fd_prestat_get fd_prestat_dir_name path_open
+    fd_filestat_get path_filestat_get path_rename path_unlink_file path_remove_directory
+    path_create_directory path_symlink path_readlink, and the unimplemented stubs
+    (fd_filestat_set_size, fd_fdstat_set_flags, … : `return WASI_ERRNO_NOSYS`).
+  State: the descriptor table exactly as coded (append-only list of {fd, dir, path}) and a
+  liveness map of the `strndup`ed path strings; reading a freed string is `.ub .useAfterFree`,
+  freeing it twice `.ub .doubleFree`, `strcpy` from NULL `.ub .nullDeref`.
+
+  All theorems hold for EVERY host (`H : Host σ`: `close`, `closedir`, `open`, … may return
+  anything, incl. failures) and every guest memory, and are inductions over arbitrary
+  histories of calls of both ABIs.  They are stated for `Cfg.ofGen`, the structural facts
+  regenerated from the current source (`Gen.Wasi`): `ofGen_fixed` is the proof obligation that
+  the source still contains the three repairs (path cleared on close, closed slots rejected
+  by `wasiFileDescriptorGet`, NULL-path test in fd_readdir); without them the
+  `unfixed_…_counterexample` theorems show the property fails (these were the defects found on
+  the pinned tree; /repo commits ca3f538, 2fb1333).
+
+  Outside the statements: guest pointers outside guest memory (`.ub .outOfBounds` in the model);
+  the unimplemented stubs return ENOSYS without looking at their descriptor; fd_seek converts
+  whence before the descriptor lookup (see `seek_bad_whence_precedence_counterexample`).
+-/
+import W2c2Verif.Lemmas.WasiEbadf
+import W2c2Verif.Model.WasiPosix
+
+namespace W2c2Verif.Props.C13
+open W2c2Verif W2c2Verif.Model.Wasi W2c2Verif.Spec.Posix
+
+variable {σ : Type}
+
+/-- the regenerated source has the three repairs -/
+theorem ofGen_fixed : Fixed Cfg.ofGen := ⟨rfl, rfl, rfl⟩
+
+/-! ## the table invariant -/
+
+/-- `wasiInit` followed by any number of embedder pre-opens establishes the invariant -/
+theorem fd_table_inv_init (mem : Mem) (host : σ) (pre : List Bytes) :
+    InvS (pre.foldl addPreopen (initTable mem host)) := by
+  have : ∀ (l : List Bytes) (s : St σ), InvS s → InvS (l.foldl addPreopen s) := by
+    intro l
+    induction l with
+    | nil => intro s h; exact h
+    | cons p r ih => intro s h; exact ih _ (InvS_addPreopen s p h)
+  exact this pre _ (InvS_initTable mem host)
+
+/-- `Inv init → Inv (run ops)`: every stored path is live, paths are pairwise distinct, a
+    descriptor with a directory stream has a path, descriptors 0–2 are the standard streams
+    (or closed) — preserved by every history of calls of both ABIs, for every host. -/
+theorem fd_table_inv (H : Host σ) (hist : List (Abi × Call)) :
+    ∀ (s s' : St σ) (rs : List Res), run Cfg.ofGen H s hist = .val (s', rs) → InvS s → InvS s' := by
+  induction hist with
+  | nil => intro s s' rs h hi; simp [run] at h; obtain ⟨h1, _⟩ := h; subst h1; exact hi
+  | cons ac rest ih =>
+    intro s s' rs h hi
+    obtain ⟨abi, c⟩ := ac
+    simp only [run] at h
+    cases hs : step Cfg.ofGen H abi s c with
+    | val x =>
+      obtain ⟨s1, r⟩ := x
+      rw [hs] at h
+      simp only [Out.bind_val] at h
+      cases hr : run Cfg.ofGen H s1 rest with
+      | val y =>
+        obtain ⟨s2, rs2⟩ := y
+        rw [hr] at h
+        simp only [Out.bind_val, Out.val.injEq, Prod.mk.injEq] at h
+        obtain ⟨h1, _⟩ := h
+        subst h1
+        exact ih s1 s2 rs2 hr (step_InvS Cfg.ofGen ofGen_fixed.clears H abi s s1 c r hs hi)
+      | trap t => rw [hr] at h; simp at h
+      | ub k => rw [hr] at h; simp at h
+      | oof => rw [hr] at h; simp at h
+    | trap t => rw [hs] at h; simp at h
+    | ub k => rw [hs] at h; simp at h
+    | oof => rw [hs] at h; simp at h
+
+/-- `closed d → d = ⟨−1, none, none⟩`: a successful fd_close leaves exactly the empty descriptor … -/
+theorem close_empties (H : Host σ) (abi : Abi) (s s' : St σ) (n : Nat) (log : List (Nat × Bytes))
+    (h : step Cfg.ofGen H abi s (.fdClose n) = .val (s', .errno 0 log)) : s'.fds[n]? = some Desc.empty :=
+  fdClose_ok_empty Cfg.ofGen ofGen_fixed.clears H s s' n log h
+
+/-- … and no later call of any history changes that slot (descriptor numbers are never reused) -/
+theorem closed_stays_closed (H : Host σ) (n : Nat) (hist : List (Abi × Call)) (s s' : St σ) (rs : List Res)
+    (he : s.fds[n]? = some Desc.empty) (h : run Cfg.ofGen H s hist = .val (s', rs)) :
+    s'.fds[n]? = some Desc.empty :=
+  empty_stable_run Cfg.ofGen H n hist s s' rs he h
+
+/-- descriptors 0–2 denote the host's standard streams 0–2 (no path, no directory stream) until
+    they are closed, in every reachable state -/
+theorem std_streams (H : Host σ) (hist : List (Abi × Call)) (s s' : St σ) (rs : List Res)
+    (h : run Cfg.ofGen H s hist = .val (s', rs)) (hi : InvS s) (i : Nat) (hi3 : i < 3) :
+    s'.fds[i]? = some ⟨i, none, none⟩ ∨ s'.fds[i]? = some Desc.empty :=
+  (fd_table_inv H hist s s' rs h hi).std i hi3
+
+/-! ## uniqueness -/
+
+/-- A successful path_open returns `t.length` — a number no descriptor has or ever had —,
+    stores it little-endian at the result pointer, appends exactly one entry with a freshly
+    allocated path string and leaves every existing entry untouched. -/
+theorem fd_unique (H : Host σ) (abi : Abi) (s s' : St σ) (a b c d e f g hh fdPtr : Nat) (log : List (Nat × Bytes))
+    (h : step Cfg.ofGen H abi s (.pathOpen a b c d e f g hh fdPtr) = .val (s', .errno 0 log)) :
+    log = [(fdPtr, leBytes 4 s.fds.length)] ∧
+    s'.fds.length = s.fds.length + 1 ∧
+    (∀ i, i < s.fds.length → s'.fds[i]? = s.fds[i]?) ∧
+    (∃ nfd : Int, s'.fds[s.fds.length]? = some ⟨nfd, none, some s.heap.length⟩) ∧
+    (∃ p, s'.heap = s.heap ++ [.live p]) := by
+  obtain ⟨h', nfd, p, s2, w', hadd, hs', _, hlog⟩ := pathOpen_ok Cfg.ofGen H s s' a b c d e f g hh fdPtr log h
+  obtain ⟨_, hf, hheap, _, _⟩ := tableAdd_spec _ _ _ _ _ hadd
+  subst hs'
+  simp only at hf hheap
+  refine ⟨hlog, ?_, ?_, ⟨nfd, ?_⟩, ⟨cstr p, ?_⟩⟩
+  · simp [hf]
+  · intro i hi; simp only [hf]; exact List.getElem?_append_left hi
+  · simp [hf]
+  · simp [hheap]
+
+/-- the table only grows: a number, once issued, is never issued again -/
+theorem numbers_never_reused (H : Host σ) (abi : Abi) (s s' : St σ) (c : Call) (r : Res)
+    (h : step Cfg.ofGen H abi s c = .val (s', r)) : s.fds.length ≤ s'.fds.length :=
+  step_length_mono Cfg.ofGen H abi s s' c r h
+
+/-- live descriptors never alias: two different numbers never share a path string -/
+theorem paths_never_alias (H : Host σ) (hist : List (Abi × Call)) (s s' : St σ) (rs : List Res)
+    (h : run Cfg.ofGen H s hist = .val (s', rs)) (hi : InvS s)
+    (i j : Nat) (d d' : Desc) (hp : Nat) (hd : s'.fds[i]? = some d) (hd' : s'.fds[j]? = some d')
+    (h1 : d.path = some hp) (h2 : d'.path = some hp) : i = j :=
+  (fd_table_inv H hist s s' rs h hi).inj i j d d' hp hd hd' h1 h2
+
+/-! ## closed and never-issued numbers -/
+
+/-- After a successful fd_close(n), at any later point of any history, every call that takes n
+    (incl. a second fd_close, fd_readdir, path_open with n as directory, both arguments of
+    path_rename) returns EBADF and changes nothing — no guest memory, no host call, no table
+    entry.  (`looksUpFirst` excludes only the ENOSYS stubs and fd_seek with an invalid whence.) -/
+theorem closed_is_ebadf (H : Host σ) (abi0 abi : Abi) (s0 s1 s2 : St σ) (n : Nat) (log : List (Nat × Bytes))
+    (hist : List (Abi × Call)) (rs : List Res)
+    (hclose : step Cfg.ofGen H abi0 s0 (.fdClose n) = .val (s1, .errno 0 log))
+    (hrun : run Cfg.ofGen H s1 hist = .val (s2, rs))
+    (c : Call) (hn : n ∈ c.fdArgs) (hc : c.looksUpFirst Cfg.ofGen abi) :
+    step Cfg.ofGen H abi s2 c = .val (s2, .errno BADF []) := by
+  have he1 := close_empties H abi0 s0 s1 n log hclose
+  have he2 := closed_stays_closed H n hist s1 s2 rs he1 hrun
+  exact dead_is_ebadf Cfg.ofGen H abi s2 c n hn (getDesc_none_of_empty ofGen_fixed.rejects he2) hc
+
+/-- numbers never issued (≥ the table length, e.g. 2^32 − 1) -/
+theorem never_issued_is_ebadf (H : Host σ) (abi : Abi) (s : St σ) (n : Nat) (hlen : s.fds.length ≤ n)
+    (c : Call) (hn : n ∈ c.fdArgs) (hc : c.looksUpFirst Cfg.ofGen abi) :
+    step Cfg.ofGen H abi s c = .val (s, .errno BADF []) :=
+  dead_is_ebadf Cfg.ofGen H abi s c n hn (getDesc_none_of_len hlen) hc
+
+/-- `looksUpFirst` is satisfiable for every implemented call (non-vacuity) -/
+example : (Call.fdClose 4).looksUpFirst Cfg.ofGen .preview1 := trivial
+example : (Call.ro (.fdSeek 4 0 2 0)).looksUpFirst Cfg.ofGen .unstable := by intro _; rfl
+example : (Call.ro (.pathRename 3 0 0 4 0 0)).looksUpFirst Cfg.ofGen .preview1 := trivial
+
+/-- What the EBADF clause does NOT cover in the current source: fd_seek rejects an invalid
+    whence before it looks at the descriptor, so a closed / never issued number gets EINVAL. -/
+theorem seek_bad_whence_precedence_counterexample (H : Host σ) (s : St σ) (n off res : Nat) :
+    step Cfg.ofGen H .preview1 s (.ro (.fdSeek n off 3 res)) = .val (s, .errno INVAL []) := by
+  apply step_ro_eq
+  simp [stepRO, Cfg.ofGen, Gen.Wasi.seekChecksWhenceFirst, whenceOf, Gen.Wasi.whencePreview1]
+
+/-! ## memory safety -/
+
+/-- No history of calls, on any host, frees a path twice, reads a freed path or copies from a
+    NULL path: the only undefined behaviour the model can reach is a guest pointer outside
+    guest memory. -/
+theorem no_ub (H : Host σ) (hist : List (Abi × Call)) (s : St σ) (hi : InvS s) (k : UBKind)
+    (h : run Cfg.ofGen H s hist = .ub k) : k = .outOfBounds :=
+  OnlyOOB_run Cfg.ofGen ofGen_fixed H hist s hi k h
+
+/-- in particular from the initial state with any pre-opens -/
+theorem no_ub_from_init (H : Host σ) (mem : Mem) (host : σ) (pre : List Bytes) (hist : List (Abi × Call))
+    (k : UBKind) (h : run Cfg.ofGen H (pre.foldl addPreopen (initTable mem host)) hist = .ub k) :
+    k ≠ .doubleFree ∧ k ≠ .useAfterFree ∧ k ≠ .nullDeref := by
+  have := no_ub H hist _ (fd_table_inv_init mem host pre) k h
+  subst this
+  exact ⟨by decide, by decide, by decide⟩
+
+/-! ## prestat -/
+
+/-- fd_prestat_get on a descriptor with a (live) path: tag 0 (directory) and the length of the
+    path, little-endian at `ptr` and `ptr + 4`; nothing else changes. -/
+theorem prestat_reports_path (H : Host σ) (abi : Abi) (s : St σ) (n ptr hp : Nat) (d : Desc) (p : Bytes)
+    (hd : getDesc Cfg.ofGen s n = some d) (hpath : d.path = some hp) (hl : s.heap[hp]? = some (.live p))
+    (hb : ptr + 8 ≤ s.mem.size) :
+    ∃ s', step Cfg.ofGen H abi s (.ro (.fdPrestatGet n ptr)) =
+        .val (s', .errno 0 [(ptr, leBytes 4 0), (ptr + 4, leBytes 4 p.length)]) ∧
+      s'.fds = s.fds ∧ s'.heap = s.heap ∧ s'.host = s.host ∧
+      s'.mem.read ptr 4 = .val (leBytes 4 0) ∧ s'.mem.read (ptr + 4) 4 = .val (leBytes 4 p.length) := by
+  obtain ⟨m1, hm1, hs1⟩ := @MW.store_inb ⟨s.mem, []⟩ ptr (leBytes 4 0)
+    (by show ptr + (leBytes 4 0).length ≤ s.mem.size; rw [leBytes_length]; omega)
+  have hsz1 : m1.size = s.mem.size := Mem.write_size hm1
+  obtain ⟨m2, hm2, hs2⟩ := @MW.store_inb ⟨m1, [(ptr, leBytes 4 0)]⟩ (ptr + 4) (leBytes 4 p.length)
+    (by show ptr + 4 + (leBytes 4 p.length).length ≤ m1.size; rw [leBytes_length, hsz1]; omega)
+  refine ⟨{ s with mem := m2 }, ?_, rfl, rfl, rfl, ?_, ?_⟩
+  · simp only [step, stepRO, hd, hpath, readHeap, hl, Out.bind_val, Gen.Wasi.WASI_PREOPEN_TYPE_DIRECTORY]
+    simp only [List.nil_append] at hs1 hs2
+    rw [hs1]; simp only [Out.bind_val]
+    rw [hs2]; simp [ret, Out.map']
+  · have h1 := Mem.read_write_same hm1
+    rw [leBytes_length] at h1
+    rw [Mem.read_write_disjoint hm2 ptr 4 (Or.inl (Nat.le_refl _))]
+    exact h1
+  · have h2 := Mem.read_write_same hm2
+    rw [leBytes_length] at h2
+    exact h2
+
+/-- fd_prestat_dir_name writes the first `min (len path) bufLen` bytes of the path -/
+theorem prestat_dir_name_writes_path (H : Host σ) (abi : Abi) (s : St σ) (n ptr len hp : Nat) (d : Desc) (p : Bytes)
+    (hd : getDesc Cfg.ofGen s n = some d) (hpath : d.path = some hp) (hl : s.heap[hp]? = some (.live p))
+    (hb : ptr + min p.length len ≤ s.mem.size) :
+    ∃ s', step Cfg.ofGen H abi s (.ro (.fdPrestatDirName n ptr len)) =
+        .val (s', .errno 0 [(ptr, p.take (min p.length len))]) ∧
+      s'.fds = s.fds ∧ s'.heap = s.heap ∧ s'.host = s.host ∧
+      s'.mem.read ptr (min p.length len) = .val (p.take (min p.length len)) := by
+  have hlen : (p.take (min p.length len)).length = min p.length len := by simp
+  obtain ⟨m1, hm1, hs1⟩ := @MW.store_inb ⟨s.mem, []⟩ ptr (p.take (min p.length len)) (by rw [hlen]; exact hb)
+  refine ⟨{ s with mem := m1 }, ?_, rfl, rfl, rfl, ?_⟩
+  · simp only [step, stepRO, hd, hpath, readHeap, hl, Out.bind_val]
+    simp only [List.nil_append] at hs1
+    rw [hs1]; simp [ret, Out.map']
+  · have h1 := Mem.read_write_same hm1
+    rw [hlen] at h1
+    exact h1
+
+/-- a pre-opened directory is such a descriptor: `wasiFileDescriptorAdd(-1, path, …)` registers
+    index `t.length` with a live copy of `path` -/
+theorem preopen_registers_path (s : St σ) (path : Bytes) (h0 : 0 < (cstr path).length)
+    (h1 : (cstr path).length < PATH_MAX) :
+    (addPreopen s path).fds[s.fds.length]? = some ⟨-1, none, some s.heap.length⟩ ∧
+    (addPreopen s path).heap[s.heap.length]? = some (.live (cstr path)) := by
+  simp [addPreopen, tableAdd, h0, h1]
+
+/-! ## the repairs are necessary (the defects found on the pinned tree) -/
+
+/-- the source as it was pinned: no `path = NULL` after `free`, no rejection of closed slots, no
+    NULL-path test in fd_readdir -/
+def unfixed : Cfg :=
+  { Cfg.ofGen with closeClearsPath := false, getRejectsClosed := false, readdirNullPath := none }
+
+def s0 : St State := initState (2 ^ 63 - 1)
+
+/-- guest memory with the path "a" at address 100 -/
+def s0a : St State :=
+  { s0 with mem := ⟨65536, fun i => if i = 100 then 97 else 0⟩ }
+
+/-- path_open(3, "a", O_CREAT) ; fd_close(4) ; fd_close(4)  — double free (defect #10) -/
+theorem unfixed_double_free_counterexample :
+    (run unfixed posixHost s0a
+      [(.preview1, .pathOpen 3 0 100 1 1 66 0 0 200), (.preview1, .fdClose 4), (.preview1, .fdClose 4)]).isUB = true := by
+  decide +kernel
+
+/-- fd_readdir(0, …) — `strcpy` from a NULL path (defect #11) -/
+theorem unfixed_null_deref_counterexample :
+    (run unfixed posixHost s0 [(.preview1, .fdReaddir 0 300 0 0 400)]).isUB = true := by
+  decide +kernel
 
 end W2c2Verif.Props.C13
